@@ -1,4 +1,6 @@
 mod c04;
+mod c04wire;
+mod c14;
 mod driver;
 mod report;
 mod rng;
@@ -19,6 +21,8 @@ fn main() {
     let chunk: usize = arg(&args, "--chunk", "262144").parse().unwrap();
     let rep = match stream {
         "c04" => c04::run(&tier, seed, &driver, chunk, &work),
+        "c04wire" => c04wire::run(&tier, seed, &driver, &work),
+        "c14" => c14::run(&tier, seed, &driver, &work),
         _ => { eprintln!("unknown stream {}", stream); std::process::exit(2); }
     };
     std::fs::write(&out, serde_json::to_string_pretty(&rep.to_json()).unwrap()).unwrap();
